@@ -203,6 +203,16 @@ def lex(s: str):
             elif k in "78=>\\":
                 i += 2          # save / restore cursor, keypad modes, stray ST
                 toks.append(("other",))
+            elif "\x20" <= k <= "\x2f":
+                # ESC + intermediates + final byte; cut short by a control character or a
+                # non-ASCII glyph (which is then processed normally)
+                j = i + 1
+                while j < n and "\x20" <= s[j] <= "\x2f":
+                    j += 1
+                if j < n and "\x30" <= s[j] <= "\x7e":
+                    j += 1
+                i = j
+                toks.append(("other",))
             elif k == ESC or k > "\x7f":
                 i += 1          # ESC aborted by the next ESC / by a non-ASCII glyph (which is printed)
                 toks.append(("other",))
